@@ -148,6 +148,22 @@ def shared_prefix_instance(rng):
             "flow": [[u, v, str(fl[(u, v)])] for u, v in edges]}
 
 
+def decimal_float_instance(rng):
+    """flow values that are python float sums of decimal weights (0.1 + 0.2 = 0.30000000000000004): conservation holds only up
+    to rounding, residuals of a greedy peeling hit exactly 0 on one side of a node and 2.8e-17 on the other. Only the shape of
+    the answer is judged here (routes of the graph, one weight each), which is independent of the arithmetic"""
+    for _ in range(50):
+        nodes, edges = gen.dag(rng, n=rng.randint(3, 6), min_edges=rng.randint(2, 5))
+        touched = {x for e in edges for x in e}
+        nodes = [v for v in nodes if v in touched]
+        if len(edges) <= 9:
+            break
+    f, paths, ws = gen.flow_from_paths(rng, nodes, edges, npaths=rng.randint(1, 2), weights=(0.1, 0.2, 0.3, 0.7, 1.1), wtype=float)
+    return {"cls": rng.choice(["kFlowDecomp", "kFlowDecomp", "MinFlowDecomp"]), "nodes": list(nodes), "edges": [list(e) for e in edges],
+            "origin": "edge", "weight_type": "float", "constraints": [], "coverage": "1", "ignore": [], "starts": [], "ends": [],
+            "options": {}, "flow": [[u, v, qstr(f[(u, v)])] for (u, v) in edges], "k": len(paths) + rng.choice([0, 1, 1, 2])}
+
+
 def k5_case(ctx, inst, suite="K5.end_to_end"):
     fp = ctx.fp
     cls = inst["cls"]
@@ -207,6 +223,8 @@ def run(ctx):
         if cls == "MinFlowDecomp":
             for it in range(ctx.n(4, 20)):
                 k5_case(ctx, shared_prefix_instance(rng), suite="K5.weights_variants")
+            for it in range(ctx.n(30, 300)):
+                k5_case(ctx, decimal_float_instance(rng), suite="K5.decimal_floats")
         if cls in ("kLeastAbsErrors", "kMinPathError", "kPathCover", "MinPathCover"):
             for it in range(ctx.n(8, 40)):          # routes that must end/start at a declared inner node
                 k5_case(ctx, models.node_drop_instance(rng, cls), suite="K5.node_mode_starts_ends")
